@@ -17,7 +17,7 @@ def main():
         cid = f"C{n:02d}"
         for v in (sys.argv[1:] or ["a", "b"]):
             src = f"/tmp/wt/{cid}/out/{v}"
-            if not os.path.exists(f"{src}/patch.diff"):
+            if not (os.path.exists(f"{src}/patch.diff") and os.path.exists(f"{src}/meta.json") and os.path.exists(f"{src}/demo.py")):
                 continue
             mid = f"{cid}{v}"
             sh("git checkout -q -- . && git clean -fdq")
